@@ -13,6 +13,11 @@ def run(c):
         import json
         rp = json.load(open(c.replay))
         eng = rp.get("engine", "parked")
+        if eng.startswith("evfifo"):
+            out = c.harness("mbox", ["evfifo", "-replay", c.replay])
+            if out:
+                c.monitor("evfifo", out)
+            return
         out = c.harness("mbox", ["queue" if eng.startswith("queue") else "parked", "-replay", c.replay])
         if out:
             if eng.startswith("queue"):
@@ -28,6 +33,10 @@ def run(c):
             for n in out.get("notes") or []:
                 c.broken.append({"kind": "harness-run", "what": n})
             c.cases("parked", out, P_IMPORTS, "pcase", corr=["corr_parked"], spec=["spec_parked"], premise=["premise_parked"])
+        # the event addressing mode: one producer, 1..257 local subscribers, plain messages of the same priority in between
+        out = c.harness("mbox", ["evfifo", "-n", "26" if quick else "520"], timeout=900)
+        if out:
+            c.monitor("evfifo", out)
     if c.broken and not c.violations and not c.replay:
         keep = list(c.broken)
         out = c.harness("mbox", ["parked", "-n", "2500"], timeout=1800, env={"VERIF_SEED": str(c.seed + 7919)})
